@@ -360,6 +360,34 @@ theorem tickDMA_shape {s s' : Oam} {rd : Addr → Byte} (h : tickDMA s rd = some
     cases h
     exact ⟨rfl, rfl, rfl, rfl, rfl, rfl, rfl, fun _ => rfl, fun _ _ _ => rfl⟩
 
+/-- the DMA engine proper: how `TickDMA` moves `dmaRunning` / `dmaCycle` -/
+theorem tickDMA_engine {s s' : Oam} {rd : Addr → Byte} (h : tickDMA s rd = some s') :
+    (s.dmaRunning = true → s.dmaCycle.toNat < 161 →
+        s'.dmaRunning = true ∧ s'.dmaCycle.toNat = s.dmaCycle.toNat + 1) ∧
+    (s.dmaRunning = true → s.dmaCycle.toNat = 161 → s'.dmaRunning = false) := by
+  simp only [tickDMA] at h
+  split at h
+  · next hrun =>
+    split at h
+    · next h0 =>
+      cases h
+      exact ⟨fun _ _ => ⟨hrun, by simp only [incCycle, add16, BitVec.toNat_ofNat, h0]⟩, fun _ hc => by omega⟩
+    · split at h
+      · next h1 =>
+        cases h
+        exact ⟨fun _ _ => ⟨hrun, by simp only [incCycle, add16, BitVec.toNat_ofNat, h1]⟩, fun _ hc => by omega⟩
+      · split at h
+        · next h161 =>
+          rw [Option.map_eq_some_iff] at h
+          obtain ⟨m, _, rfl⟩ := h
+          exact ⟨fun _ hc => by omega, fun _ _ => rfl⟩
+        · next h0 h1 h161 =>
+          rw [Option.map_eq_some_iff] at h
+          obtain ⟨m, _, rfl⟩ := h
+          refine ⟨fun _ hc => ⟨hrun, ?_⟩, fun _ hc => absurd hc h161⟩
+          simp only [incCycle, add16, BitVec.toNat_ofNat]; omega
+  · next hrun => exact ⟨fun hr => absurd hr hrun, fun hr => absurd hr hrun⟩
+
 /-- a running transfer is at a cycle the state machine handles -/
 def DmaOk (s : Oam) : Prop := s.dmaRunning = true → s.dmaCycle.toNat ≤ 161
 
